@@ -462,6 +462,8 @@ type reopenOutcome struct {
 	panicv any
 	state  string
 	ghosts []string
+	err2   error // second open (after more mutations and a clean stop)
+	state2 string
 }
 
 func reopen(dir string) (o reopenOutcome) {
@@ -478,8 +480,34 @@ func reopen(dir string) (o reopenOutcome) {
 		return
 	}
 	go kv.Start()
-	defer kv.Stop()
 	o.state, o.ghosts, o.err = observe(kv)
+	if o.err != nil {
+		kv.Stop()
+		return
+	}
+	// life goes on after the recovery: two more mutations (net effect: none), a clean stop and
+	// another open. A log that was only just readable must stay readable once it has grown.
+	ctx := context.Background()
+	e1 := kv.Put(ctx, []byte("c20-after-recovery"), []byte("x"))
+	e2 := kv.Delete(ctx, []byte("c20-after-recovery"))
+	kv.Stop()
+	if e1 != nil || e2 != nil {
+		o.err2 = fmt.Errorf("mutations after recovery failed: %v / %v", e1, e2)
+		return
+	}
+	kv2, err := newKV(dir)
+	if err != nil {
+		o.err2 = err
+		return
+	}
+	go kv2.Start()
+	defer kv2.Stop()
+	st2, _, err := observe(kv2)
+	if err != nil {
+		o.err2 = err
+		return
+	}
+	o.state2 = st2
 	return
 }
 
@@ -678,6 +706,17 @@ func runHistory(r *ev.Run, hi int, hist []mut, onlyK int) {
 				return
 			}
 			r.Count("reopen_ok", 1)
+			if o.err2 != nil {
+				w["error"] = o.err2.Error()
+				r.Violation("second-reopen-fails:"+classifyErr(o.err2), caseName, fmt.Sprintf("crash after file operation %d/%d (%s, in flight: %s): the store reopened, took two more mutations and a clean stop, and then failed to open again: %v", k, len(tr.Ops), last, inflight, o.err2), w)
+				return
+			}
+			if o.state2 != o.state {
+				w["recovered"], w["after_second_open"] = o.state, o.state2
+				r.Violation("second-reopen-state-differs", caseName, fmt.Sprintf("crash after file operation %d/%d: state after recovery %s, after a further put+delete of another key, clean stop and reopen %s", k, len(tr.Ops), o.state, o.state2), w)
+				return
+			}
+			r.Count("second_reopen_ok", 1)
 			r.Sample(map[string]any{"history": hi, "image": k, "last_op": last, "in_flight": inflight, "acked": acked, "recovered": o.state})
 			if len(o.ghosts) > 0 {
 				w["ghost_keys"] = o.ghosts
